@@ -116,7 +116,7 @@ PROPS = {
         "explanation": "Theorems: limit_refuses_new_key, limit_allows_update_and_room (refusal exactly when the first-level group already holds more than the limit and the key is new; an error returns no new state), order_canonical (ascending lexicographic digest order, full collisions in insertion order); group shapes (inline group born with two keys, exported to an external slab exactly when a first-level group exceeds the element limit, collapsed to a single element, insertion-ordered list when digests are exhausted) are part of ElemsInv, preserved by C02's theorems. Oracle: Go map + VerifyMap + no storage effect after a refusal.",
     },
     "C03": {
-        "streams": ["persist", "mpersist", "storage"], "driver": {"persist": "array", "mpersist": "map", "storage": "storage"}, "level": "proof",
+        "streams": ["persist", "mpersist", "storage", "nested"], "driver": {"persist": "array", "mpersist": "map", "storage": "storage", "nested": "world"}, "level": "proof",
         "trusted_base": LEAN_TB, "assumptions": STORAGE_ASSUME + ARRAY_ASSUME + [
             "container level: the array model's effect log is validated against the real SlabStorage call sequence on every operation; the map model likewise in C02's streams",
             "the codec round trip used by commit_durable_on_reopen is a hypothesis here (C07)"],
